@@ -24,6 +24,14 @@
                 stored result) and follower acknowledgements with ANY offset through
                 EventAck / EventPull.AckOffset, which is where the guard lives.
 
+     "follower" the reactor's follower-side and checkpoint paths, which assign HW / LEO /
+                CheckpointHW outside the pure machine (follower_replication.go,
+                lifecycle_runtime.go, quorum_runtime.go, runtime_channel.go).  The reactor is
+                driven with ApplyMeta and Tick events only; every blocking effect (store load,
+                pull RPC, store apply, store checkpoint, quorum install) is an outstanding call
+                whose completion is a separate action, so that a completion can be held back
+                until after a metadata fence change.  See the section "Follower level".
+
    One action per exported call; every action records call and reply in `ev`
    (hidden by VIEW in exhaustive runs).  Property C06 is stated at the end. *)
 EXTENDS Integers, Sequences, FiniteSets, SequencesExt
@@ -38,16 +46,22 @@ CONSTANTS
   Epochs, LEpochs, Leaders, ReplicaSets, ISRs, MinISRs, Statuses,   \* metadata domain
   Modes,        \* subset of {"quorum","local","default"}
   Counts,       \* record counts per waiter
-  Gens          \* fence generations tried (1 is the generation of the state under test)
+  Gens,         \* fence generations tried (1 is the generation of the state under test)
+  QLogs,        \* follower level: subset of BOOLEAN, is a durable quorum log configured
+  StoreLeos, StoreCks,  \* follower level: durable log end / checkpoint before the load (ck <= leo)
+  RGens,        \* follower level: route generations carried by metadata (quorum authority)
+  MaxFut        \* follower level: bound on ApplyMeta futures issued
 
 VARIABLES
   m,        \* the channel state (record, see InitState)
   answered, \* history: waiter ops answered since they were last proposed
   nextOp,   \* history: smallest waiter op id never proposed
-  cfg,      \* [local |-> node, level |-> "machine" | "reactor"]
+  cfg,      \* [local |-> node, level |-> "machine" | "reactor"], or for the follower level
+            \* [local, level |-> "follower", qlog, sleo, sck] (durable state before the load)
+  fx,       \* follower level: the reactor's state around the machine (see FxInit)
   ev        \* last call and reply (observation only)
 
-vars == <<m, answered, nextOp, cfg, ev>>
+vars == <<m, answered, nextOp, cfg, fx, ev>>
 
 Gen    == 1
 Max2(a, b) == IF a > b THEN a ELSE b
@@ -61,11 +75,45 @@ InitState ==
    pend |-> NoPend,     \* op -> [target (0 = offsets not assigned yet), mode, n records]
    infl |-> NoInfl]     \* the durable batch waiting for its fenced store result
 
+NoMeta == [epoch |-> 0, lepoch |-> 0, leader |-> 0, replicas |-> {}, isr |-> {}, minISR |-> 0,
+           status |-> "none", rg |-> 0]
+NoAuth == [epoch |-> 0, lepoch |-> 0, rg |-> 0, leader |-> 0, isr |-> {}, minISR |-> 0]
+NoCk   == [on |-> FALSE, epoch |-> 0, lepoch |-> 0, v |-> 0]
+NoInst == [on |-> FALSE, tok |-> 0, auth |-> NoAuth, futs |-> <<>>]
+
+\* The reactor's state around one channel (only meaningful at the follower level).
+FxInit(c) ==
+  [phase |-> "absent",   \* "absent" | "loading" (async store load in flight) | "loaded"
+   lmeta |-> NoMeta,     \* loading: the metadata the load will apply
+   futs  |-> <<>>,       \* loading: ApplyMeta futures waiting for the load
+   nf    |-> 1,          \* next future id
+   rs    |-> "idle",     \* follower replication: "idle" | "pulling" | "applying" | "parked" | "lagging"
+   lhw   |-> 0,          \* replication.lastLeaderHW
+   due   |-> FALSE,      \* committedCheckpointDue is set
+   ck    |-> NoCk,       \* the committed-HW checkpoint in flight (committedCheckpointOp) and its fence
+   pulls |-> {},         \* fences [epoch, lepoch] of pull RPCs not answered yet
+   aps   |-> {},         \* store applies not completed yet: [epoch, lepoch, base, n, lhw]
+   rb    |-> FALSE,      \* HW has been assigned under the current metadata fence
+   sleo  |-> IF "sleo" \in DOMAIN c THEN c.sleo ELSE 0,   \* durable log end
+   sck   |-> IF "sck" \in DOMAIN c THEN c.sck ELSE 0,     \* durable checkpoint
+   auth  |-> NoAuth,     \* quorum mode: authority proven by the last successful install
+   inst  |-> NoInst,     \* quorum mode: the install the runtime is waiting for
+   insts |-> {},         \* quorum mode: installs not completed yet: [tok, auth]
+   ni    |-> 1]          \* next install token
+
+Cfgs ==
+  {[local |-> l, level |-> lv] : l \in Locals, lv \in Levels \ {"follower"}}
+  \cup (IF "follower" \in Levels
+          THEN {[local |-> l, level |-> "follower", qlog |-> q, sleo |-> s[1], sck |-> s[2]] :
+                   l \in Locals, q \in QLogs, s \in {t \in StoreLeos \X StoreCks : t[2] <= t[1]}}
+          ELSE {})
+
 Init ==
-  /\ cfg \in [local : Locals, level : Levels]
+  /\ cfg \in Cfgs
   /\ m = InitState
   /\ answered = {}
   /\ nextOp = 1
+  /\ fx = FxInit(cfg)
   /\ ev = [a |-> "Init", cfg |-> cfg]
 
 RECURSIVE SumTo(_, _)
@@ -235,7 +283,7 @@ Meta(mt) ==
   IN /\ m' = r.s
      /\ answered' = answered \cup RepOps(replies)
      /\ ev' = [a |-> "Meta", m |-> MetaEv(mt), res |-> [ok |-> r.ok, replies |-> replies]]
-     /\ UNCHANGED <<nextOp, cfg>>
+     /\ UNCHANGED <<nextOp, cfg, fx>>
 
 Propose(b, ws) ==
   LET r == PropF(m, b, ws)
@@ -247,7 +295,7 @@ Propose(b, ws) ==
                res |-> [ok |-> r.ok, task |-> r.task,      \* the fence carried by the store task
                         fence |-> IF r.task THEN [epoch |-> m.epoch, lepoch |-> m.lepoch, op |-> b, gen |-> Gen]
                                   ELSE [epoch |-> 0, lepoch |-> 0, op |-> 0, gen |-> 0]]]
-     /\ UNCHANGED cfg
+     /\ UNCHANGED <<cfg, fx>>
 
 Stored(f, base, last, err) ==
   LET r == StoredF(m, cfg.local, f, base, last, err) IN
@@ -255,7 +303,7 @@ Stored(f, base, last, err) ==
   /\ answered' = answered \cup RepOps(r.replies)
   /\ ev' = [a |-> "Stored", fence |-> f, base |-> base, last |-> last, err |-> err,
             res |-> [replies |-> r.replies]]
-  /\ UNCHANGED <<nextOp, cfg>>
+  /\ UNCHANGED <<nextOp, cfg, fx>>
 
 Quorum(f, first, last, hw, err) ==
   LET r == QuorumF(m, cfg.local, f, first, last, hw, err) IN
@@ -263,7 +311,7 @@ Quorum(f, first, last, hw, err) ==
   /\ answered' = answered \cup RepOps(r.replies)
   /\ ev' = [a |-> "Quorum", fence |-> f, first |-> first, last |-> last, hw |-> hw, err |-> err,
             res |-> [replies |-> r.replies]]
-  /\ UNCHANGED <<nextOp, cfg>>
+  /\ UNCHANGED <<nextOp, cfg, fx>>
 
 \* Machine level: the method itself, under the guarantee the reactor guard gives it.
 \* Reactor level: the guarded entry point, any offset.
@@ -276,26 +324,26 @@ Ack(f, off) ==
         /\ answered' = answered \cup RepOps(r.replies)
         /\ ev' = [a |-> "Ack", f |-> f, off |-> off,
                   res |-> [rejected |-> r.rejected, replies |-> r.replies]]
-  /\ UNCHANGED <<nextOp, cfg>>
+  /\ UNCHANGED <<nextOp, cfg, fx>>
 
 Cancel(o) ==
   /\ m' = [m EXCEPT !.pend = Restrict(m.pend, DOMAIN m.pend \ {o})]
   /\ ev' = [a |-> "Cancel", op |-> o, res |-> [ok |-> o \in DOMAIN m.pend]]
-  /\ UNCHANGED <<answered, nextOp, cfg>>
+  /\ UNCHANGED <<answered, nextOp, cfg, fx>>
 
 Abort(b) ==
   /\ m' = IF m.infl.present /\ m.infl.op = b
             THEN [m EXCEPT !.pend = Restrict(m.pend, DOMAIN m.pend \ Range(m.infl.wops)), !.infl = NoInfl]
             ELSE m
   /\ ev' = [a |-> "Abort", b |-> b, res |-> [ok |-> TRUE]]
-  /\ UNCHANGED <<answered, nextOp, cfg>>
+  /\ UNCHANGED <<answered, nextOp, cfg, fx>>
 
 \* Environment: a durable checkpoint of a committed watermark read earlier in this fence.
 Checkpoint(v) ==
   /\ v <= m.hw
   /\ m' = IF v > m.ckpt THEN [m EXCEPT !.ckpt = v] ELSE m
   /\ ev' = [a |-> "Checkpoint", v |-> v, res |-> [ok |-> TRUE]]
-  /\ UNCHANGED <<answered, nextOp, cfg>>
+  /\ UNCHANGED <<answered, nextOp, cfg, fx>>
 
 \* Reactor level append.
 AppendReq(o, mode, n) ==
@@ -305,7 +353,239 @@ AppendReq(o, mode, n) ==
   /\ nextOp' = IF r.ok THEN Max2(nextOp, o + 1) ELSE nextOp
   /\ ev' = [a |-> "Append", op |-> o, mode |-> mode, n |-> n,
             res |-> [ok |-> r.ok, replies |-> r.replies]]
-  /\ UNCHANGED cfg
+  /\ UNCHANGED <<cfg, fx>>
+
+
+-------------------------------------------------------------------------------
+\* Follower level: the reactor steps that assign HW / LEO / CheckpointHW outside the machine.
+\*
+\* The reactor is configured with hour-long replication, checkpoint and probe intervals, so that
+\* every timed decision is taken in a Tick event (whose clock the harness advances) and every
+\* immediate one (pull after metadata, apply after a pull answer, pull after an apply) in the
+\* turn of the event that caused it.  Blocking effects run on the real worker pools and are
+\* completed by the environment: LoadDone, PullResp, ApplyDone, CkptDone, InstallDone.
+
+IsFol == cfg.level = "follower"
+Min2(a, b) == IF a < b THEN a ELSE b
+Fc(s) == [epoch |-> s.epoch, lepoch |-> s.lepoch]
+Loaded == fx.phase = "loaded"
+FolActive(s) == s.role = "follower" /\ s.status = "active"
+FenceLess(a, b) == a.epoch < b.epoch \/ (a.epoch = b.epoch /\ a.lepoch < b.lepoch)
+SameFence(a, b) == a.epoch = b.epoch /\ a.lepoch = b.lepoch
+Fails(ids) == [i \in DOMAIN ids |-> [id |-> ids[i], ok |-> FALSE]]
+Oks(ids)   == [i \in DOMAIN ids |-> [id |-> ids[i], ok |-> TRUE]]
+FMetaEv(mt) == [epoch |-> mt.epoch, lepoch |-> mt.lepoch, leader |-> mt.leader,
+                replicas |-> SetToSortSeq(mt.replicas, <), isr |-> SetToSortSeq(mt.isr, <),
+                minISR |-> mt.minISR, status |-> mt.status, rg |-> mt.rg]
+
+\* quorum_runtime.go: the authority a leader must install before it may commit.
+AuthOf(mt) == [epoch |-> mt.epoch, lepoch |-> mt.lepoch, rg |-> mt.rg, leader |-> mt.leader,
+               isr |-> mt.isr, minISR |-> mt.minISR]
+NeedsInstall(s) == cfg.qlog /\ s.role = "leader" /\ s.status \in {"active", "creating"}
+\* Metadata the control plane hands to a quorum-log node: a route generation, leader in the ISR.
+QOk(mt) == cfg.qlog => mt.rg >= 1 /\ mt.leader \in mt.isr
+
+\* startQuorumInstall on the loaded leader state s (ApplyMeta already done): join the install in
+\* flight, reuse the proven authority, or submit a new install.
+QStart(s, f, mt, ids) ==
+  LET a == AuthOf(mt) IN
+  IF f.inst.on
+    THEN [s |-> [s EXCEPT !.ready = FALSE], f |-> [f EXCEPT !.inst.futs = @ \o ids], st |-> "wait", done |-> <<>>]
+  ELSE IF f.auth = a
+    THEN [s |-> [s EXCEPT !.ready = TRUE], f |-> f, st |-> "ok", done |-> Oks(ids)]
+  ELSE [s |-> [s EXCEPT !.ready = FALSE],
+        f |-> [f EXCEPT !.inst = [on |-> TRUE, tok |-> f.ni, auth |-> a, futs |-> ids],
+                        !.insts = @ \cup {[tok |-> f.ni, auth |-> a]}, !.ni = @ + 1],
+        st |-> "wait", done |-> <<>>]
+
+\* runtime_channel.go handleApplyMeta on a loaded runtime: applyLoadedRuntimeMeta + applyLoadedMetaDecision.
+FMetaLoaded(mt, id) ==
+  LET r  == MetaF(m, cfg.local, mt)
+      nr == IF mt.leader = cfg.local THEN "leader" ELSE "follower"
+      mfence == \/ m.epoch # mt.epoch \/ m.lepoch # mt.lepoch \/ m.leader # mt.leader
+                \/ m.role # nr \/ m.status # mt.status
+      qfence == /\ cfg.qlog /\ mt.leader = cfg.local
+                /\ IF fx.inst.on THEN fx.inst.auth # AuthOf(mt)
+                                 ELSE fx.auth # NoAuth /\ fx.auth # AuthOf(mt)
+      fenced == mfence \/ qfence
+      f0 == [fx EXCEPT !.nf = id + 1]
+  IN IF ~r.ok THEN [s |-> m, f |-> f0, st |-> "rej", done |-> <<>>]
+     ELSE IF ~cfg.qlog THEN
+       LET f1 == IF FolActive(r.s)
+                   THEN IF fenced
+                          THEN [f0 EXCEPT !.rs = "pulling", !.pulls = @ \cup {Fc(r.s)}, !.lhw = 0,
+                                          !.rb = IF SameFence(m, mt) THEN @ ELSE FALSE]
+                        ELSE IF f0.rs \in {"parked", "lagging"}
+                          THEN [f0 EXCEPT !.rs = "pulling", !.pulls = @ \cup {Fc(r.s)}]
+                        ELSE f0
+                   ELSE [f0 EXCEPT !.rs = "idle", !.lhw = 0,
+                                   !.rb = IF SameFence(m, mt) THEN @ ELSE FALSE]
+       IN [s |-> r.s, f |-> f1, st |-> "ok", done |-> <<>>]
+     ELSE
+       LET cleared == IF fenced /\ f0.inst.on THEN Fails(f0.inst.futs) ELSE <<>>
+           f1 == [f0 EXCEPT !.inst = IF fenced THEN NoInst ELSE @,
+                            !.rb = IF SameFence(m, mt) THEN @ ELSE FALSE]
+       IN IF NeedsInstall(r.s)
+            THEN LET q == QStart(r.s, f1, mt, <<id>>)
+                 IN [s |-> q.s, f |-> q.f, st |-> q.st, done |-> cleared]
+            ELSE [s |-> r.s, f |-> f1, st |-> "ok", done |-> cleared]
+
+\* ApplyMeta.  An absent channel starts an asynchronous store load and parks the caller's future;
+\* metadata arriving during the load is compared with the metadata being loaded (handleApplyMetaToLoading):
+\* older fence -> refused, newer fence -> replaces it and fails the parked futures, same fence and
+\* same leader -> only waits for the load (its contents are not looked at: the first metadata of a
+\* fence wins).  Same fence with ANOTHER leader is a same-epoch leader switch and is refused.
+FMeta(mt) ==
+  /\ IsFol /\ QOk(mt)
+  /\ LET id == fx.nf IN
+     CASE fx.phase = "absent" ->
+            /\ m' = m
+            /\ fx' = [fx EXCEPT !.phase = "loading", !.lmeta = mt, !.futs = <<id>>, !.nf = id + 1]
+            /\ ev' = [a |-> "FMeta", id |-> id, m |-> FMetaEv(mt), res |-> [st |-> "wait", done |-> <<>>]]
+       [] fx.phase = "loading" ->
+            /\ m' = m
+            /\ IF FenceLess(mt, fx.lmeta) \/ (SameFence(mt, fx.lmeta) /\ mt.leader # fx.lmeta.leader)
+                 THEN /\ fx' = [fx EXCEPT !.nf = id + 1]
+                      /\ ev' = [a |-> "FMeta", id |-> id, m |-> FMetaEv(mt), res |-> [st |-> "rej", done |-> <<>>]]
+               ELSE IF FenceLess(fx.lmeta, mt)
+                 THEN /\ fx' = [fx EXCEPT !.lmeta = mt, !.futs = <<id>>, !.nf = id + 1]
+                      /\ ev' = [a |-> "FMeta", id |-> id, m |-> FMetaEv(mt),
+                                res |-> [st |-> "wait", done |-> Fails(fx.futs)]]
+               ELSE /\ fx' = [fx EXCEPT !.futs = Append(@, id), !.nf = id + 1]
+                    /\ ev' = [a |-> "FMeta", id |-> id, m |-> FMetaEv(mt), res |-> [st |-> "wait", done |-> <<>>]]
+       [] fx.phase = "loaded" ->
+            LET r == FMetaLoaded(mt, id) IN
+            /\ m' = r.s
+            /\ fx' = r.f
+            /\ ev' = [a |-> "FMeta", id |-> id, m |-> FMetaEv(mt), res |-> [st |-> r.st, done |-> r.done]]
+  /\ UNCHANGED <<answered, nextOp, cfg>>
+
+\* The store load completes (runtime_channel.go completeApplyMetaStoreLoad): the runtime starts from
+\* the durable log end and checkpoint and applies the metadata kept for it.
+LoadDone(err) ==
+  /\ IsFol /\ fx.phase = "loading"
+  /\ LET c0 == Min2(fx.sck, fx.sleo)
+         s0 == [InitState EXCEPT !.leo = fx.sleo, !.hw = c0, !.ckpt = c0]
+         r  == MetaF(s0, cfg.local, fx.lmeta)
+         fl == [fx EXCEPT !.phase = "loaded", !.lmeta = NoMeta, !.futs = <<>>]
+     IN IF err \/ ~r.ok
+          THEN /\ m' = m
+               /\ fx' = [fx EXCEPT !.phase = "absent", !.lmeta = NoMeta, !.futs = <<>>]
+               /\ ev' = [a |-> "LoadDone", err |-> err, res |-> [done |-> Fails(fx.futs)]]
+        ELSE IF NeedsInstall(r.s)
+          THEN LET q == QStart(r.s, fl, fx.lmeta, fx.futs) IN
+               /\ m' = q.s
+               /\ fx' = q.f
+               /\ ev' = [a |-> "LoadDone", err |-> err, res |-> [done |-> q.done]]
+        ELSE /\ m' = r.s
+             /\ fx' = IF FolActive(r.s) /\ ~cfg.qlog
+                        THEN [fl EXCEPT !.rs = "pulling", !.pulls = @ \cup {Fc(r.s)}] ELSE fl
+             /\ ev' = [a |-> "LoadDone", err |-> err, res |-> [done |-> Oks(fx.futs)]]
+  /\ UNCHANGED <<answered, nextOp, cfg>>
+
+\* What a leader can report to this follower without the follower's watermarks breaking C06: the
+\* committed watermark the follower would adopt is not below its checkpoint and, once a watermark
+\* has been adopted under this fence, not below it.  Answers outside this set are the subject of
+\* the known findings (the reactor adopts min(LEO, leader HW) unconditionally).
+EnvHW(x) == x >= m.ckpt /\ (fx.rb => x >= m.hw)
+
+\* The leader answers the pull issued under fence f with n records after the follower's log end,
+\* its committed watermark and its log end (follower_replication.go handleRPCPullResult,
+\* applyFollowerPullResponse).  An answer for another fence than the current one is dropped.
+PullResp(f, n, lhw, lleo) ==
+  /\ IsFol /\ f \in fx.pulls
+  /\ LET cur == Loaded /\ f = Fc(m) /\ FolActive(m) /\ fx.rs = "pulling"
+         nh  == Min2(m.leo, lhw)
+     IN IF ~cur
+          THEN /\ m' = m
+               /\ fx' = [fx EXCEPT !.pulls = @ \ {f}]
+        ELSE /\ lhw <= lleo /\ lleo >= m.leo + n
+             /\ EnvHW(IF n = 0 THEN nh ELSE Min2(Max2(fx.sleo, m.leo + n), lhw))
+             /\ IF n = 0
+                  THEN /\ m' = [m EXCEPT !.hw = nh]
+                       /\ fx' = [fx EXCEPT !.pulls = @ \ {f}, !.lhw = lhw, !.rb = TRUE,
+                                           !.due = IF nh > m.hw /\ nh > m.ckpt THEN TRUE ELSE @,
+                                           !.rs = IF lleo > m.leo THEN "lagging" ELSE "parked"]
+                  ELSE /\ m' = m
+                       /\ fx' = [fx EXCEPT !.pulls = @ \ {f}, !.lhw = lhw, !.rs = "applying",
+                                           !.aps = @ \cup {[epoch |-> f.epoch, lepoch |-> f.lepoch,
+                                                            base |-> m.leo + 1, n |-> n, lhw |-> lhw]}]
+  /\ ev' = [a |-> "PullResp", f |-> f, n |-> n, lhw |-> lhw, lleo |-> lleo, res |-> [ok |-> TRUE]]
+  /\ UNCHANGED <<answered, nextOp, cfg>>
+
+\* The store apply submitted under fence f completes (handleStoreApplyResult).  The records reach
+\* the durable log whatever the fence; the runtime adopts the result only under the same fence.
+ApplyDone(f) ==
+  /\ IsFol /\ \E a \in fx.aps : a.epoch = f.epoch /\ a.lepoch = f.lepoch
+  /\ LET a     == CHOOSE a \in fx.aps : a.epoch = f.epoch /\ a.lepoch = f.lepoch
+         sleo1 == Max2(fx.sleo, a.base + a.n - 1)
+         cks   == IF a.lhw > 0 THEN Min2(a.lhw, sleo1) ELSE 0      \* checkpoint covered by the apply
+         f1    == [fx EXCEPT !.aps = @ \ {a}, !.sleo = sleo1, !.sck = Max2(@, cks)]
+         cur   == Loaded /\ f = Fc(m) /\ FolActive(m) /\ fx.rs = "applying"
+         hw1   == Min2(sleo1, fx.lhw)
+         ck1   == Max2(m.ckpt, cks)
+     IN IF ~cur
+          THEN /\ m' = m
+               /\ fx' = f1
+        ELSE /\ m' = [m EXCEPT !.leo = sleo1, !.hw = hw1, !.ckpt = ck1]
+             /\ fx' = [f1 EXCEPT !.rs = "pulling", !.pulls = @ \cup {f}, !.rb = TRUE,
+                                 !.due = IF ck1 >= hw1 THEN FALSE ELSE @]
+  /\ ev' = [a |-> "ApplyDone", f |-> f, res |-> [ok |-> TRUE]]
+  /\ UNCHANGED <<answered, nextOp, cfg>>
+
+\* A Tick event whose clock is past every deadline (tickFollowerReplication): a parked follower
+\* submits the committed-HW checkpoint that is due (HW above the checkpoint, none in flight) and
+\* then probes the leader; a lagging one pulls again.
+Tick ==
+  /\ IsFol
+  /\ LET act == Loaded /\ FolActive(m) /\ ~cfg.qlog
+         sub == act /\ fx.rs = "parked" /\ fx.due /\ m.hw > m.ckpt /\ ~fx.ck.on
+     IN /\ fx' = IF act /\ fx.rs \in {"parked", "lagging"}
+                   THEN [fx EXCEPT !.rs = "pulling", !.pulls = @ \cup {Fc(m)},
+                                   !.due = IF sub THEN FALSE ELSE @,
+                                   !.ck = IF sub THEN [on |-> TRUE, epoch |-> m.epoch, lepoch |-> m.lepoch, v |-> m.hw]
+                                          ELSE @]
+                   ELSE fx
+        /\ ev' = [a |-> "Tick", res |-> [ck |-> sub, v |-> IF sub THEN m.hw ELSE 0]]
+  /\ m' = m
+  /\ UNCHANGED <<answered, nextOp, cfg>>
+
+\* The checkpoint store call completes (lifecycle_runtime.go handleStoreCheckpointResult).  A result
+\* whose fence is not the current one only releases the in-flight slot.
+CkptDone(err) ==
+  /\ IsFol /\ fx.ck.on
+  /\ LET f   == [epoch |-> fx.ck.epoch, lepoch |-> fx.ck.lepoch]
+         cur == Loaded /\ f = Fc(m)
+         f1  == [fx EXCEPT !.ck = NoCk, !.sck = IF err THEN @ ELSE Max2(@, fx.ck.v)]
+     IN /\ IF ~cur THEN m' = m /\ fx' = f1
+           ELSE IF err THEN m' = m /\ fx' = [f1 EXCEPT !.due = IF m.hw > m.ckpt THEN TRUE ELSE @]
+           ELSE m' = [m EXCEPT !.ckpt = Max2(@, fx.ck.v)] /\ fx' = f1
+        /\ ev' = [a |-> "CkptDone", f |-> f, v |-> fx.ck.v, err |-> err, res |-> [ok |-> TRUE]]
+  /\ UNCHANGED <<answered, nextOp, cfg>>
+
+\* The quorum install with token tok completes (quorum_runtime.go handleQuorumInstallResult) with the
+\* recovered log end and committed watermark.  A correct quorum log never recovers less than what
+\* was committed: not below the checkpoint and, under an unchanged fence, not below the watermark.
+InstallDone(tok, leo, hw, err) ==
+  /\ IsFol /\ \E i \in fx.insts : i.tok = tok
+  /\ LET i   == CHOOSE i \in fx.insts : i.tok = tok
+         f   == [epoch |-> i.auth.epoch, lepoch |-> i.auth.lepoch]
+         cur == Loaded /\ fx.inst.on /\ fx.inst.tok = tok /\ f = Fc(m)
+         f1  == [fx EXCEPT !.insts = @ \ {i}]
+     IN /\ IF ~cur THEN m' = m /\ fx' = f1 /\ ev' = [a |-> "InstallDone", tok |-> tok, f |-> f, leo |-> leo, hw |-> hw,
+                                                     err |-> err, res |-> [done |-> <<>>]]
+           ELSE IF err
+             THEN /\ m' = [m EXCEPT !.ready = FALSE]
+                  /\ fx' = [f1 EXCEPT !.inst = NoInst]
+                  /\ ev' = [a |-> "InstallDone", tok |-> tok, f |-> f, leo |-> leo, hw |-> hw, err |-> err,
+                            res |-> [done |-> Fails(fx.inst.futs)]]
+           ELSE /\ hw <= leo /\ EnvHW(hw)
+                /\ m' = [m EXCEPT !.leo = leo, !.hw = hw, !.ckpt = Max2(@, hw), !.ready = TRUE,
+                                  !.progress[cfg.local] = leo]
+                /\ fx' = [f1 EXCEPT !.inst = NoInst, !.auth = i.auth, !.rb = TRUE]
+                /\ ev' = [a |-> "InstallDone", tok |-> tok, f |-> f, leo |-> leo, hw |-> hw, err |-> err,
+                          res |-> [done |-> Oks(fx.inst.futs)]]
+  /\ UNCHANGED <<answered, nextOp, cfg>>
 
 -------------------------------------------------------------------------------
 \* Input domains of the exhaustive runs.
@@ -336,7 +616,7 @@ IsMach == cfg.level = "machine"
 IsReac == cfg.level = "reactor"
 
 NMeta ==
-  \E mt \in Metas :
+  ~IsFol /\ \E mt \in Metas :
      /\ IsReac => mt.leader = cfg.local /\ mt.status = "active"
      /\ Meta(mt)
 NPropose == IsMach /\ \E b \in BatchIds, ws \in Batches : Propose(b, ws)
@@ -359,11 +639,35 @@ NCheckpoint  == IsMach /\ \E v \in Offs : Checkpoint(v)
 NAppend ==
   IsReac /\ \E o \in {nextOp} \cup DOMAIN m.pend, mode \in Modes, n \in Counts :
      o <= MaxOp /\ m.leo + n <= MaxOff /\ AppendReq(o, mode, n)
-NAck == \E f \in Nodes, off \in 0..(m.leo + 1) : Ack(f, off)
+NAck == ~IsFol /\ \E f \in Nodes, off \in 0..(m.leo + 1) : Ack(f, off)
+
+\* follower level
+WithRG(mt, rg) == [epoch |-> mt.epoch, lepoch |-> mt.lepoch, leader |-> mt.leader, replicas |-> mt.replicas,
+                   isr |-> mt.isr, minISR |-> mt.minISR, status |-> mt.status, rg |-> rg]
+MinRG == CHOOSE x \in RGens : \A y \in RGens : x <= y
+NFMeta ==
+  IsFol /\ fx.nf <= MaxFut /\ \E mt \in Metas, rg \in RGens :
+     /\ ~cfg.qlog => rg = MinRG
+     /\ FMeta(WithRG(mt, rg))
+NLoadDone == \E err \in BOOLEAN : LoadDone(err)
+NPullResp ==
+  IsFol /\ \E f \in fx.pulls :
+     IF Loaded /\ f = Fc(m)
+       THEN \E n \in Counts \cup {0}, lhw \in Offs, lleo \in Offs : m.leo + n <= MaxOff /\ PullResp(f, n, lhw, lleo)
+       ELSE PullResp(f, 0, 0, 0)
+NApplyDone == IsFol /\ \E a \in fx.aps : ApplyDone([epoch |-> a.epoch, lepoch |-> a.lepoch])
+NTick == Tick
+NCkptDone == \E err \in BOOLEAN : CkptDone(err)
+NInstallDone ==
+  IsFol /\ \E i \in fx.insts :
+     IF fx.inst.on /\ fx.inst.tok = i.tok
+       THEN \E leo \in Offs, hw \in Offs, err \in BOOLEAN : (err => leo = 0 /\ hw = 0) /\ InstallDone(i.tok, leo, hw, err)
+       ELSE InstallDone(i.tok, 0, 0, FALSE)
 
 Next ==
   \/ NMeta \/ NPropose \/ NStored \/ NStoredStale \/ NQuorum \/ NQuorumErr \/ NQuorumStale
   \/ NCancel \/ NAbort \/ NCheckpoint \/ NAppend \/ NAck
+  \/ NFMeta \/ NLoadDone \/ NPullResp \/ NApplyDone \/ NTick \/ NCkptDone \/ NInstallDone
 
 Spec == Init /\ [][Next]_vars
 
@@ -378,7 +682,10 @@ Proj ==
    pend |-> SeqBy(DOMAIN m.pend, LAMBDA o : [op |-> o, target |-> m.pend[o].target,
                                              mode |-> m.pend[o].mode, n |-> m.pend[o].n]),
    infl |-> [op |-> m.infl.op, wops |-> m.infl.wops, counts |-> m.infl.counts],
-   inv |-> (m.ckpt <= m.hw /\ m.hw <= m.leo)]      \* CheckInvariants() = nil
+   inv |-> (m.ckpt <= m.hw /\ m.hw <= m.leo),      \* CheckInvariants() = nil
+   loaded |-> fx.phase = "loaded",                 \* follower level: the runtime exists
+   sched |-> [rs |-> fx.rs, due |-> fx.due, ck |-> fx.ck.on, phase |-> fx.phase,   \* harness bookkeeping only
+              inst |-> fx.inst.on]]
 
 -------------------------------------------------------------------------------
 \* Property C06 on the design.
@@ -394,9 +701,12 @@ TypeOK ==
 \* checkpointed watermark <= committed watermark <= log end
 C06_Order == m.ckpt <= m.hw /\ m.hw <= m.leo
 
-\* the committed watermark never decreases within one metadata fence
+\* the committed watermark never decreases within one metadata fence.  A follower (or a leader that
+\* installs a quorum authority) inherits the watermark of the previous fence and replaces it by
+\* the first one it learns under the new fence (fx.rb says that this has happened); from then on it
+\* never decreases.  At the machine and reactor levels nothing ever lowers it.
 C06_HWMonotone ==
-  [][(m'.epoch = m.epoch /\ m'.lepoch = m.lepoch) => m'.hw >= m.hw]_vars
+  [][(m'.epoch = m.epoch /\ m'.lepoch = m.lepoch) /\ (cfg.level = "follower" => fx.rb) => m'.hw >= m.hw]_vars
 
 Replies == IF ev.a # "Init" /\ "replies" \in DOMAIN ev.res THEN ev.res.replies ELSE <<>>
 
@@ -429,9 +739,38 @@ C06_StaleMeta ==
         \/ ev'.m.epoch = m.epoch /\ ev'.m.lepoch = m.lepoch /\ ev'.m.leader # m.leader)
      => ~ev'.res.ok /\ m' = m]_vars
 
+\* Follower level: a worker result (pull answer, store apply, store checkpoint, quorum install) whose
+\* fence is not the current one changes nothing and answers nobody.
+FolResult(a) == a \in {"PullResp", "ApplyDone", "CkptDone", "InstallDone"}
+FDone == IF ev.a # "Init" /\ "done" \in DOMAIN ev.res THEN ev.res.done ELSE <<>>
+C06_StaleFenceF ==
+  [][FolResult(ev'.a) /\ ~(fx.phase = "loaded" /\ ev'.f = [epoch |-> m.epoch, lepoch |-> m.lepoch])
+        => m' = m /\ FDone' = <<>>]_vars
+
+\* Follower level: metadata older than, or switching the leader within, the fence the runtime has
+\* (or is loading) is refused and changes nothing.
+C06_StaleMetaF ==
+  [][ev'.a = "FMeta" /\ fx.phase # "absent" /\
+       (LET ref == IF fx.phase = "loaded" THEN [epoch |-> m.epoch, lepoch |-> m.lepoch, leader |-> m.leader]
+                   ELSE [epoch |-> fx.lmeta.epoch, lepoch |-> fx.lmeta.lepoch, leader |-> fx.lmeta.leader]
+        IN \/ ev'.m.epoch < ref.epoch
+           \/ ev'.m.epoch = ref.epoch /\ ev'.m.lepoch < ref.lepoch
+           \/ ev'.m.epoch = ref.epoch /\ ev'.m.lepoch = ref.lepoch /\ ev'.m.leader # ref.leader)
+     => ev'.res.st = "rej" /\ ev'.res.done = <<>> /\ m' = m /\ fx'.lmeta = fx.lmeta]_vars
+
+\* Follower level: what keeps the order invariant: the runtime never knows more than the durable log,
+\* a checkpoint in flight was a committed watermark, the durable checkpoint covers the runtime's.
+FolTypeOK ==
+  cfg.level = "follower" =>
+    /\ m.leo <= fx.sleo \/ cfg.qlog
+    /\ fx.rs \in {"idle", "pulling", "applying", "parked", "lagging"}
+    /\ fx.rs = "pulling" => [epoch |-> m.epoch, lepoch |-> m.lepoch] \in fx.pulls
+    /\ fx.rs # "idle" => fx.phase = "loaded" /\ m.role = "follower"
+    /\ m.pend = NoPend /\ ~m.infl.present
+
 \* The guard: an acknowledgement above the log end never reaches the state.
 C06_AckGuard ==
   [][ev'.a = "Ack" /\ ev'.off > m.leo => ev'.res.rejected /\ m' = m]_vars
 
-View == <<m, answered, nextOp, cfg>>
+View == <<m, answered, nextOp, cfg, fx>>
 ===============================================================================
